@@ -190,8 +190,23 @@ fn c17(case: &Value) -> Value {
         "ensure_msg": ens.err().map(|e| e.to_string()), "display": display, "names": names})
 }
 
+fn wit(case: &Value) -> Value {
+    // does wit-parser accept these package names?  (validates the harness' kebab-name predicate)
+    let outs: Vec<bool> = case["names"]
+        .as_array()
+        .unwrap()
+        .iter()
+        .map(|n| {
+            let mut r = Resolve::default();
+            r.push_str("t.wit", &format!("package n:{};\n", n.as_str().unwrap())).is_ok()
+        })
+        .collect();
+    json!({ "ok": outs })
+}
+
 fn run(case: &Value) -> Value {
     match case["prop"].as_str().unwrap_or("") {
+        "wit" => wit(case),
         "C26" => c26(case),
         "C25" => c25(case),
         "C27" => c27(case),
